@@ -29,6 +29,7 @@ class P(Prop):
         ("TracklibVerif.Props.C19", "TV.C19.conservation", "the scatter never fails; cell (i,j) holds exactly the values of the observations whose getCell is (j,i); sizes sum to the number of observations, any per-value weight (e.g. non-NaN) is conserved"),
         ("TracklibVerif.Props.C19", "TV.C19.aggregate_spec", "co_count/co_sum/co_min/co_max/co_avg/co_median = that aggregate over the non-NaN values; no non-NaN value -> 0 for count and sum, no-data otherwise"),
         ("TracklibVerif.Props.C19", "TV.C19.aggregates_entry", "computeAggregates writes, in (line i, column j), the operator's value on that cell with NaN replaced by the no-data value"),
+        ("TracklibVerif.Props.C19", "TV.C19.summarize_spec", "end to end: on a collection with positive-width/height extent summarize never fails, builds a well-formed grid covering all observations and returns computeAggregates of cells holding exactly the located values"),
         ("TracklibVerif.Props.C19", "TV.C19.rat_floor_ceil", "the driver's Rat.floor / Rat.ceil are the Int.floor / Int.ceil of the theorems"),
     ]
     partial = []
